@@ -2316,7 +2316,243 @@ def c08(tier):
                                    "per-entry records are validated for the selected boundary entries; all entries contribute to the count/name digest and lexer-level flags"])
 
 
-CHECKS = {"C08": c08, "C07": c07, "C18": c18, "C06": c06, "C11": c11, "C20": c20, "C10": c10, "C04": c04, "C15": c15, "C16": c16, "C09": c09, "C19": c19, "C03": c03, "C13": c13, "C14": c14, "C01": c01, "C02": c02, "C12": c12, "C17": c17}
+
+LIE_VALS = {"zero": lambda h, w: 0, "one": lambda h, w: 1, "dec": lambda h, w: h - 1, "inc": lambda h, w: h + 1, "max": lambda h, w: (1 << (8 * w)) - 1,
+            "t16m1": lambda h, w: 0xFFFE, "m99": lambda h, w: 99, "m8": lambda h, w: 8, "m12": lambda h, w: 12, "m93": lambda h, w: 93, "m14": lambda h, w: 14,
+            "t16": lambda h, w: 0xFFFF, "t16p1": lambda h, w: 0x10000, "t32m1": lambda h, w: 0xFFFFFFFE, "half32": lambda h, w: 0x80000000,
+            "t32": lambda h, w: 0xFFFFFFFF, "t32p1": lambda h, w: 0x100000000, "half64": lambda h, w: 1 << 63, "max64m1": lambda h, w: (1 << 64) - 2,
+            "enc": lambda h, w: h | 1, "dd": lambda h, w: h | 8, "enc_dd": lambda h, w: h | 9, "utf8": lambda h, w: h ^ 0x800, "strong": lambda h, w: h | 0x41}
+
+
+def locate_records(b, view):
+    """absolute positions of the records the lies of Lies.tla refer to"""
+    import struct
+    pos = {"eocd": [], "z64rec": [], "z64loc": [], "central": [], "local": [], "cz64": [], "lz64": [], "aesx": []}
+    e = b.rfind(b"PK\x05\x06")
+    if e >= 0:
+        pos["eocd"] = [e]
+        if e >= 20 and b[e - 20:e - 16] == b"PK\x06\x07":
+            pos["z64loc"] = [e - 20]
+            if e >= 76 and b[e - 76:e - 72] == b"PK\x06\x06":
+                pos["z64rec"] = [e - 76]
+
+    def find_tlv(start, ln, want):
+        o = start
+        while o + 4 <= start + ln:
+            i, n = struct.unpack("<HH", b[o:o + 4])
+            if i == want:
+                return o
+            o += 4 + n
+        return None
+    for en in view["entries"]:
+        c, h = en["chs"], en["hdr"]
+        pos["central"].append(c)
+        pos["local"].append(h)
+        nlen, xlen = struct.unpack("<HH", b[c + 28:c + 32])
+        pos["cz64"].append(find_tlv(c + 46 + nlen, xlen, 1))
+        pos["aesx"].append(find_tlv(c + 46 + nlen, xlen, 0x9901))
+        lnlen, lxlen = struct.unpack("<HH", b[h + 26:h + 30])
+        pos["lz64"].append(find_tlv(h + 30 + lnlen, lxlen, 1))
+    return pos
+
+
+def lie_patch(b, pos, lie):
+    """a lie descriptor (from TLC) -> ["set", position, bytes] on seed b, or None when the record is absent"""
+    lst = pos.get(lie["rec"], [])
+    k = lie["ent"] - 1
+    if k >= len(lst) or lst[k] is None:
+        return None
+    at = lst[k] + lie["off"]
+    w = lie["w"]
+    if at + w > len(b):
+        return None
+    honest = int.from_bytes(b[at:at + w], "little")
+    v = LIE_VALS[lie["v"]](honest, w) % (1 << (8 * w))
+    if v == honest:
+        return None
+    return ["set", at, list(v.to_bytes(w, "little"))]
+
+
+def tlc_lies(wd, pairs):
+    r = vlib.tlc_run("MC_Lies.tla", "MC_Lies_pairs.cfg" if pairs else "MC_Lies.cfg", wd, workers=1, timeout=900, tag="lies")
+    out = []
+    for m in re.finditer(r'<<"LIE", "(.*)">>', r["out"]):
+        out.append(json.loads(json.loads('"' + m.group(1) + '"')))
+    if not out or r["error"]:
+        raise ToolTrouble("MC_Lies produced no lies: %s" % r["error"])
+    return out, r
+
+
+def c05(tier):
+    import refzip
+    rep = Report("C05", tier)
+    wd = vlib.workdir("C05", tier)
+    vlib.build_harness()
+    sd = vlib.seed()
+    rnd = random.Random(sd * 4099 + 5)
+    singles, r1 = tlc_lies(wd, False)
+    rep.add_mc(r1, "MC_Lies.cfg")
+    pairs, r2 = tlc_lies(wd, True)
+    rep.add_mc(r2, "MC_Lies_pairs.cfg")
+    rep.notes["lies"] = {"single": len(singles), "cooperating_pairs": len(pairs)}
+    # ---- seeds
+    seeds = []       # (name, bytes, view or None, passwords)
+    txt = b"The quick brown fox jumps over the lazy dog. " * 3
+    rb = bytes(rnd.randrange(256) for _ in range(50))
+    defs = {
+        "plain": ({"comment": b"seed", "entries": [{"name": b"a.txt", "method": 8, "data": txt, "fcomment": b"fc"}, {"name": b"dir/", "method": 0, "data": b""},
+                                                    {"name": "ü.bin".encode(), "utf8": True, "method": 0, "data": rb, "lextra": [(0xcafe, b"xy")], "cextra": [(0xbeef, b"z")]}]}, []),
+        "z64": ({"z64end": True, "entries": [{"name": b"z1", "method": 8, "data": txt, "z64": {"usize", "csize", "off"}, "lz64": True},
+                                             {"name": b"z2", "method": 0, "data": rb, "z64": {"off"}}]}, []),
+        "dd": ({"entries": [{"name": b"d1", "method": 8, "data": txt, "dd": "sig32"}, {"name": b"d2", "method": 0, "data": rb, "dd": "nosig64", "lz64": True}]}, []),
+        "zc": ({"entries": [{"name": b"c1", "method": 8, "data": txt, "enc": ("zc", b"pw")}, {"name": b"c2", "method": 0, "data": rb, "enc": ("zc", b"pw"), "dd": "sig32", "time": 0x7b21}]}, [b"pw", b"wrong"]),
+        "aes": ({"entries": [{"name": b"a1", "method": 8, "data": txt, "enc": ("aes", 2, 3, b"pw")}, {"name": b"a2", "method": 0, "data": rb[:17], "enc": ("aes", 1, 1, b"pw")},
+                             {"name": b"a3", "method": 0, "data": b"", "enc": ("aes", 2, 2, b"pw")}]}, [b"pw", b"wrong"]),
+        "methods": ({"prefix": b"MZ-prefix-junk", "entries": [{"name": b"b.bz2", "method": 12, "data": txt}, {"name": b"u.lzma", "method": 14, "data": rb},
+                                                                   {"name": b"e", "method": 0, "data": b""}], "comment": b"c" * 40}, []),
+    }
+    for nm, (d, pws) in defs.items():
+        b, v = refzip.build(d)
+        seeds.append((nm, b, v, pws))
+    cb, _, _ = crate_seeds(wd, rnd)
+    seeds.append(("crate", cb, None, [b"pw2"]))
+    import glob
+    for f in sorted(glob.glob("/repo/tests/data/*.zip")):
+        b = open(f, "rb").read()
+        if len(b) <= 20000:
+            seeds.append(("fx-" + os.path.basename(f)[:-4], b, None, [b"helloworld", b"test"]))
+    cases = []
+    lines = [{"seed_def": nm, "hex": b.hex(), "pws": [p.hex() for p in pws]} for nm, b, v, pws in seeds]
+    quick = tier == "quick"
+
+    def add(seed, cls, mut):
+        cases.append({"id": "%s#%d" % (cls, len(cases)), "sc": "p%03d" % (len(cases) // 2000), "cls": cls, "seed": seed, "mut": mut})
+    for nm, b, v, pws in seeds:
+        # every truncation point (an interrupted write or download)
+        step = 1 if (len(b) <= 1500 or not quick) else max(1, len(b) // 700)
+        for n in range(0, len(b), step):
+            add(nm, "trunc", [["trunc", n]])
+        # structural regions: everything that is not entry data
+        if v is not None:
+            data = set()
+            for en in v["entries"]:
+                data.update(range(en["dstart"], en["dstart"] + en["csize"]))
+            struct_pos = [i for i in range(len(b)) if i not in data]
+        else:
+            struct_pos = list(range(len(b)))
+        subs = [(pos, val) for pos in struct_pos for val in range(256) if val != b[pos]]
+        budget = 2500 if quick else (len(subs) if len(b) <= 1200 else 60000)
+        for pos, val in (subs if budget >= len(subs) else rnd.sample(subs, budget)):
+            add(nm, "subst", [["set", pos, [val]]])
+        for _ in range(400 if quick else 6000):
+            m = []
+            for _ in range(rnd.randint(2, 5)):
+                c = rnd.random()
+                pos = rnd.choice(struct_pos)
+                if c < 0.6:
+                    m.append(["set", pos, [rnd.choice([0, 1, 0xFF, 0x7F, 0x80, rnd.randrange(256)]) for _ in range(rnd.choice([1, 2, 4, 8]))]])
+                elif c < 0.75:
+                    m.append(["ins", pos, [rnd.randrange(256) for _ in range(rnd.randint(1, 9))]])
+                elif c < 0.9:
+                    m.append(["del", pos, rnd.randint(1, 9)])
+                else:
+                    m.append(["trunc", rnd.randrange(len(b))])
+            add(nm, "multi", m)
+        # the structure-aware lies enumerated by TLC
+        if v is not None:
+            pos = locate_records(b, v)
+            for lie in singles:
+                p = lie_patch(b, pos, lie[0])
+                if p:
+                    add(nm, "lie", [p])
+            pr = pairs if not quick else rnd.sample(pairs, 1500)
+            if not quick and nm not in ("z64", "aes", "plain"):
+                pr = rnd.sample(pairs, 20000)
+            for lp in pr:
+                ps = [lie_patch(b, pos, x) for x in lp]
+                if all(ps):
+                    add(nm, "lie2", ps)
+    # arbitrary bytes, with record signatures sprinkled in
+    for i in range(1500 if quick else 40000):
+        n = rnd.choice([0, 1, 21, 22, 23, 46, 64, 100, 300, 1000])
+        x = bytearray(rnd.randrange(256) for _ in range(n))
+        for _ in range(rnd.randint(0, 4)):
+            if n >= 4:
+                at = rnd.randrange(n - 3)
+                x[at:at + 4] = rnd.choice([b"PK\x05\x06", b"PK\x01\x02", b"PK\x03\x04", b"PK\x06\x06", b"PK\x06\x07", b"PK\x07\x08"])
+        add(seeds[0][0], "arbitrary", [["raw", bytes(x).hex()]])
+    rep.notes["cases_by_class"] = {}
+    for c in cases:
+        rep.notes["cases_by_class"][c["cls"]] = rep.notes["cases_by_class"].get(c["cls"], 0) + 1
+    progs = os.path.join(wd, "robust-cases.ndjson")
+    trace = os.path.join(wd, "robust-trace.ndjson")
+    vlib.write_ndjson(progs, lines + cases)
+    vlib.run_harness(["pexec", progs, trace, "90"], timeout=7200)
+    # the trace is segmented by the `sc` field (2000 cases per segment); TLC needs a Reset in front of each
+    evs = vlib.read_ndjson(trace)
+    if len(evs) != len(cases):
+        raise ToolTrouble("pexec produced %d events for %d cases" % (len(evs), len(cases)))
+    out, last = [], None
+    for e in evs:
+        if e["sc"] != last:
+            out.append({"ev": "Reset", "sc": e["sc"]})
+            last = e["sc"]
+        out.append(e)
+    vlib.write_ndjson(trace, out)
+    byid = {c["id"]: c for c in cases}
+    res = vlib.validate_segments("Trace_Robust.tla", "Trace_Robust.cfg", trace, wd, tag="robust", max_rejections=6)
+    # a rejected segment names one input: the replay holds that case (seed + mutation), not 2000
+    for rj in res["rejections"]:
+        e = rj["event"] if isinstance(rj["event"], dict) else {}
+        c = byid.get(e.get("id"), {})
+        seedhex = next((l["hex"] for l in lines if l["seed_def"] == c.get("seed")), "")
+        rj["segment"] = [e]
+        rj["sc"] = e.get("id", rj["sc"])
+        byid[rj["sc"]] = {"case": c, "seed_hex": seedhex}
+    rep.add_tv(res, byid, "robust")
+    rep.evaluations += len(cases)
+    for c in cases:
+        rep.distinct.add(vlib.digest([c["seed"], c["mut"]]))
+    stats = {}
+    peak_ratio = 0
+    ncalls = 0
+    for e in evs:
+        ncalls += e.get("calls", 0)
+        for a, c in e.get("classes", []):
+            stats[c] = stats.get(c, 0) + 1
+        if e.get("len"):
+            peak_ratio = max(peak_ratio, e["peak"] / e["len"])
+    rep.notes["result_classes"] = stats
+    rep.notes["api_calls"] = ncalls
+    rep.notes["max_peak_bytes_per_input_byte"] = round(peak_ratio, 1)
+    rep.notes["spec_counters"] = dict(vlib.LAST_STATS)
+    rep.samples.append({"case": cases[len(cases) // 2], "event": {k: evs[len(cases) // 2][k] for k in ("cls", "len", "calls", "classes", "peak")}})
+    # binding demonstration: a panic class / an excessive peak must be rejected
+    good = next(e for e in evs if e.get("classes"))
+    for what in ("panic", "peak"):
+        def mutate(es, what=what):
+            if what == "panic":
+                es[1]["classes"].append(["by_index", "panic"])
+                return "a panic result class injected"
+            es[1]["peak"] = 1048576 + 512 * es[1]["len"] + 1
+            return "peak allocation one byte over the bound"
+        nc = vlib.corrupt_and_expect_reject("Trace_Robust.tla", "Trace_Robust.cfg", [{"ev": "Reset", "sc": "neg"}, dict(good, sc="neg")], wd, mutate, tag="robust-neg")
+        rep.neg_controls.append(nc)
+        if not nc["rejected"]:
+            raise ToolTrouble("negative control did not fire: " + nc["mutation"])
+    return rep.finish("exploration",
+                      "inputs = seed archives (independent builder: plain/ZIP64/data-descriptor/ZipCrypto/AE-1+AE-2/odd methods+prefix; the crate's own writer; the "
+                      "repository's fixtures) x {every truncation point, single-byte substitutions in all structural bytes (quick: sampled), multi-site mutations "
+                      "(set/insert/delete/truncate), the structure-aware single lies and cooperating pairs of lies enumerated by TLC from Lies.tla (field x boundary value)} "
+                      "+ arbitrary bytes with record signatures; each input runs the whole reader surface (open, by_index/by_index_raw/by_index_decrypt/by_name(+decrypt), "
+                      "reads, all accessors, clone, streaming reader full and partial, visitor, new_append+finish) in a supervised worker process under a counting "
+                      "allocator; Trace_Robust requires every result class to be a value or an error, no crash/stall, and peak heap growth while opening <= 1 MiB + 512 x len; "
+                      "distinct = distinct (seed, mutation)",
+                      assumptions=["exploration: the space of byte strings is sampled, exhaustive only over truncation points and (thorough) substitutions of small seeds and the enumerated lies",
+                                   "reads are capped at 4 MiB per entry (inputs are small)"])
+
+
+CHECKS = {"C05": c05, "C08": c08, "C07": c07, "C18": c18, "C06": c06, "C11": c11, "C20": c20, "C10": c10, "C04": c04, "C15": c15, "C16": c16, "C09": c09, "C19": c19, "C03": c03, "C13": c13, "C14": c14, "C01": c01, "C02": c02, "C12": c12, "C17": c17}
 
 
 def setup():
